@@ -961,6 +961,13 @@ func (rg *Rig) Run() {
 					rg.slow("BindRemoteStream", t0)
 					rg.rebound(false, o.S)
 				}
+			case "bn":
+				// a further stream pair (new SSRCs, no traffic) is bound while the others are busy
+				simrt.SleepUntil(us(o.AtUs))
+				e.Fault("bind_new_stream")
+				k := uint32(o.HS & 7)
+				rg.chain.BindLocalStream(RigStream{SSRC: 9100 + k, PT: 96, Clock: 90000, TWCC: 5, NACK: true}.info(), interceptor.RTPWriterFunc(func(_ *rtp.Header, pl []byte, _ interceptor.Attributes) (int, error) { return len(pl), nil }))
+				rg.chain.BindRemoteStream(RigStream{SSRC: 9200 + k, PT: 97, Clock: 90000, TWCC: 4, NACK: true}.info(), interceptor.RTPReaderFunc(func([]byte, interceptor.Attributes) (int, interceptor.Attributes, error) { return 0, nil, io.EOF }))
 			case "close":
 				simrt.SleepUntil(us(o.AtUs))
 				e.Fault("close_at")
